@@ -8,118 +8,23 @@ COMMON_TRUSTED = [
     "the model is hand-written: the theorems are about coq/<id>/Model.v; the tie to the Rust code is the differential run reported in this file",
 ]
 
+import glob
+import importlib.util
+import os
+
+# One file per property under tools/props.d/ (Cxx.py defining ENTRY) so that properties can be
+# added independently. Entries may also be written inline below.
 PROPS = {
-    "C05": {
-        "coq_dir": "C05",
-        "coq_deps": ["Mgr"],
-        "model_files": ["Glue"],
-        "harness": "c05",
-        "cases": {"quick": 1500, "thorough": 40000},
-        "consts": [],
-        "rule": "adaptive seeded event histories (5-60 events quick, 10-120 thorough) against the real TransportManager with a scripted "
-                "transport: dial requests by peer and by address, address additions, open/negotiate outcomes, inbound connections "
-                "(ids drawn from the shared counter), accept futures, closures, limit configurations from {none,0,1,2,3}; 85% follow "
-                "the transport contract and end with a settle phase (all owed answers delivered, every peer re-dialled), 15% add "
-                "infeasible noise (unknown ids, failing transport calls, failing accepts). After every event the transport calls, "
-                "protocol notifications, manager events, return code and a dump of peer states / pending / counted sets are compared "
-                "with the extracted Coq model. Non-trivial: trace >= 8 numbers; distinct (case, trace) pairs are counted.",
-        "level_text": "Proof + translation validation: per-handler theorems about the manager's dial bookkeeping (re-dial is attempted, "
-                      "failure reports consume the pending attempt, a failed dial or a limit-rejected outbound connection leaves no dial "
-                      "record, panics need contradictory ids) hold for every state and configuration; the history-level ledger "
-                      "(exactly one outcome per attempt, no wedged peer at quiescence) is decided by the extracted oracle on the "
-                      "implementation's own traces over generated feasible histories; the model is tied to manager/mod.rs step by step.",
-        "level_note": "Trusted: Coq kernel, extraction, harness + ScriptedTransport hook. One transport (TCP) only; the address book is "
-                      "abstracted to 'has an address'; `.await` on full protocol channels inside the DialFailure fan-out is not modelled; "
-                      "the inductive ledger proof over all histories is not finished (stated in coq/C05/Properties.v).",
-        "trusted_base": [
-            "transport contract assumed for the feasible stream: open/dial/negotiate calls succeed, each is answered once unless cancelled, accept futures succeed (validated for TCP by reading tcp/mod.rs)",
-            "connection ids: inbound ids are drawn from the counter shared with the manager (AllocConn event / verif_alloc_connection_id hook)",
-        ],
-        "assumptions": ["single installed transport (default cargo features of the harness build)",
-                        "debug build: a reachable debug_assert!(false) shows up as a panic"],
-    },
-    "C06": {
-        "coq_dir": "C06",
-        "coq_deps": ["Mgr"],
-        "model_files": ["Glue"],
-        "harness": "c05",
-        "harness_extra": "--focus limits",
-        "cases": {"quick": 1500, "thorough": 40000},
-        "consts": [],
-        "rule": "same harness as C05 with the generator biased to small limits (1..3) so that the counted sets saturate; the oracle "
-                "recomputes the ledger of established connections from the events and the accept() calls the implementation made and "
-                "checks the per-peer bound, both maxima, 'accepted when below the limit' and 'rejection leaves established records "
-                "untouched' at every step. Non-trivial: trace >= 8 numbers; distinct (case, trace) pairs are counted.",
-        "level_text": "Proof: the cap invariant (every established connection is recorded in its peer's state, ids unique, counted sets "
-                      "= established connections of that direction, sizes within the configured maxima, accept futures consistent) is "
-                      "inductive over every event the manager handles, for every configuration incl. Some 0, under the stated uniqueness "
-                      "of connection ids; corollaries: at most two per peer, maxima never exceeded, no leaked slot, exact release, accept "
-                      "below the limit, rejection preserves established records, dial gate. Model tied to the code step by step.",
-        "level_note": "Trusted: Coq kernel, extraction, harness + ScriptedTransport hook. Environment assumption env_ok: an established "
-                      "connection never reuses a live id, a close notice names the owning peer and follows the accept future.",
-        "trusted_base": ["uniqueness of connection ids (one shared atomic counter in the code) is an assumption of the theorems (env_ok)"],
-        "assumptions": ["single installed transport", "usize counters do not wrap"],
-    "C15": {
-        "coq_dir": "C15",
-        "harness": "c15",
-        "cases": {"quick": 1500, "thorough": 30000},
-        "consts": ["REPLICATION_FACTOR", "PARALLELISM_FACTOR", "DEFAULT_PEER_TIMEOUT_SECS"],
-        "nontrivial_min_trace": 30,
-        "rule": "three streams against the real QueryEngine holding one query (find_node / put_record lookup / add_provider lookup / "
-                "get_record / get_providers): (1) N seeded random networks on <= 8 peers (who knows whom incl. self/local/duplicates, "
-                "failing peers, peers answering with the wrong message type, unsolicited and duplicate responses, send notifications, "
-                "events after the terminal action) with random reply schedules; (2) 6N (quick) / 10N (thorough) runs of an EXHAUSTIVE "
-                "enumeration: for random networks on 3-5 peers with <= 2 contacts each, alpha in {1,2,3}, "
-                "k in {1,2,20}, every order in which outstanding requests are resolved x every answered/failed choice (odometer over the "
-                "environment's choice points; the harness log says how many networks were enumerated completely); (3) 16 / 96 wall-clock "
-                "FIND_NODE cases with the peer timeout shortened to 110 ms through the hook (logical half-ticks of 20 ms, a case is "
-                "discarded and retried when a call starts more than 7 ms late). The environment is adaptive, the executed event list is "
-                "written into the case and replayed by the extracted model; after every event the returned action and the full state "
-                "dump (candidates in order, sorted pending/queried, responses in order, pending_responses, found_records, queued "
-                "records, found providers, query present?) are compared; prop_ok re-judges the property text on the implementation's "
-                "actions alone; a case is non-trivial when its trace has >= 30 numbers; distinct = distinct (case, trace) pairs",
-        "trusted_base": [
-            "SHA-256 XOR distances enter the model as ranks: the harness sorts a pool of 16 random peers by their real distance to the real target key and maps case peer i to the pool peer of rank dist[i]; distinct peers are assumed to have distinct distances (dist_inj)",
-            "std::time::Instant in FindNodeContext: exercised only by the small timed stream (20 ms half-ticks, 7 ms tolerance, late runs discarded); all other cases finish far inside the default 10 s timeout",
-            "one query per QueryEngine (HashMap iteration order over several queries is not modelled); next_peer_action is not modelled",
-        ],
-        "level_text": "Proof: for every seed set, configuration and event history (any interleaving of next_action calls, responses with arbitrary "
-                      "peer lists, failures) the model keeps candidates/pending/queried pairwise disjoint and free of the local peer, sends to no "
-                      "peer twice, keeps at most alpha counting requests in flight (time-monotone histories), emits at most one terminal action "
-                      "after which nothing happens, cannot deadlock with nothing in flight (alpha >= 1), and strictly decreases the measure "
-                      "2*|unvisited|+|pending| on every send / accepted reply (at most 2n productive steps over n peers); FIND_NODE success "
-                      "reports answered peers, strictly distance-sorted, <= k, with every known closer peer contacted; GET_VALUE emits each "
-                      "accepted record exactly once and sends nothing once the quorum is met; GET_PROVIDERS reports the merge of all accepted "
-                      "provider entries. The model follows the code after the F-C15a fix and is tied to it by the per-event differential run.",
-        "level_note": "Trusted: Coq kernel, ExtrOcamlBasic extraction, harness and hooks; distances enter as ranks (injective); wall-clock timeout "
-                      "behaviour only sampled. Not proved: that the reported peers are the k closest of ALL answered peers (top-k window), the "
-                      "NoDup/address-union characterisation of merge_providers (checked by prop_ok at run time only), several concurrent queries "
-                      "in one engine, next_peer_action. GetRecord double-counts a local record (can stop before the quorum; not a violation of the text).",
-        "assumptions": ["the local peer is not among the seed candidates (routing table never stores the local key)",
-                        "distinct peers have distinct distances to the target (dist_inj)",
-                        "alpha >= 1 for progress; times of next_action calls are non-decreasing for the parallelism bound",
-                        "HashMap/HashSet iteration order is not observable (dumps are sorted)"],
-    },
-    "C17": {
-        "coq_dir": "C17",
-        "harness": "c17",
-        "cases": {"quick": 400, "thorough": 20000},
-        "consts": ["DEFAULT_MAX_RECORDS", "DEFAULT_MAX_RECORD_SIZE_BYTES", "DEFAULT_MAX_PROVIDER_KEYS",
-                   "DEFAULT_MAX_PROVIDER_ADDRESSES", "DEFAULT_MAX_PROVIDERS_PER_KEY"],
-        "rule": "seeded random operation histories (10-120 ops quick, 20-500 thorough) over <=8 keys and <=10 providers with "
-                "configurations drawn from {0,1,2,3,default}; after every operation the returned value and the full sorted store "
-                "dump of the real MemoryStore are compared with the extracted Coq model; a case is non-trivial when its trace has "
-                ">= 8 numbers; distinct = distinct (case, trace) pairs",
-        "trusted_base": [
-            "SHA-256 distance between provider and key enters the model as a rank supplied by the harness (computed with the real code); equal distance <=> equal peer is assumed",
-            "std::time::Instant: expiries are placed >= 1000 s in the future or < 1 ms after harness start, so that wall-clock drift cannot flip a comparison",
-        ],
-        "level_text": "Proof: the store invariant (all five size bounds, key uniqueness, strictly distance-sorted duplicate-free provider "
-                      "lists) is proved inductive over every operation history and configuration with max_providers_per_key >= 1; "
-                      "freshness of reads, TTL monotonicity and the put_provider refinement (delete old entry, insert sorted, keep the closest) "
-                      "are theorems about the model; the model is tied to store.rs by a per-operation differential run with full state dumps.",
-        "level_note": "Trusted: Coq kernel, ExtrOcamlBasic extraction, the harness and hooks; SHA-256 distances enter as ranks; Instant-based "
-                      "expiry is exercised only far from the comparison boundary; the refresh timer of local providers is not modelled.",
-        "assumptions": ["max_providers_per_key >= 1 (as in the property text)", "HashMap iteration order is not observable (dumps are sorted)"],
-    },
 }
+
+
+def _load():
+    d = os.path.join(os.path.dirname(os.path.abspath(__file__)), "props.d")
+    for f in sorted(glob.glob(os.path.join(d, "C*.py"))):
+        spec = importlib.util.spec_from_file_location("props_" + os.path.basename(f)[:-3], f)
+        mod = importlib.util.module_from_spec(spec)
+        spec.loader.exec_module(mod)
+        PROPS.setdefault(os.path.basename(f)[:-3], mod.ENTRY)
+
+
+_load()
